@@ -1,5 +1,5 @@
 /-
-Tie 2 (facts): the numeric literals and comparison/boolean operators of the Go functions below, REGENERATED from /repo on
+Tie 2 (facts): the set of numeric literals and the multiset of comparison/boolean operators of the Go functions below, REGENERATED from /repo on
 every run (Gen/Facts.lean), are the ones the hand-written model was written against (C20).
 A changed constant, a flipped or dropped comparison in one of these functions breaks the `decide` below even where no sampled
 input shows it; renaming and reordering of statements do not.
@@ -10,11 +10,11 @@ open SpatialId
 
 /-- literals and comparisons of `spatial.RotateBetweenVector` -/
 theorem facts_spatial_RotateBetweenVector :
-    Gen.funcFacts.lookup "spatial.RotateBetweenVector" = some ["f:4602678819172646912", "i:0", "i:0", "i:0", "i:0", "i:1", "i:1", "i:1", "i:1", "i:1", "i:2", "op:<", "op:<"] := by decide
+    Gen.funcFacts.lookup "spatial.RotateBetweenVector" = some ["f:4602678819172646912", "i:0", "i:1", "i:2", "op:<", "op:<"] := by decide
 
 /-- literals and comparisons of `spatial.QuatFromAxisAngle` -/
 theorem facts_spatial_QuatFromAxisAngle :
-    Gen.funcFacts.lookup "spatial.QuatFromAxisAngle" = some ["f:4602678819172646912", "f:4602678819172646912"] := by decide
+    Gen.funcFacts.lookup "spatial.QuatFromAxisAngle" = some ["f:4602678819172646912"] := by decide
 
 /-- `consts.Minima` (the "opposite vectors" threshold on cos + 1) is 1e-10 -/
 theorem minima : Gen.floatConsts.lookup "consts.Minima" = some 4457293557087583675 := by decide
